@@ -153,6 +153,19 @@ def likelihood_objects(ctx, chi, rng, i):
     except Exception as e:  # noqa
         ctx.spec('C17.LogLikelihood.accepts_vector_of_reported_length', False, inp, {'raised': repr(e)[:200]})
     ctx.spec('C17.LogLikelihood.names_distinct', len(set(names)) == len(names), inp, {'names': names})
+    # gradient length after a fix -> evaluateS1 -> release -> evaluateS1 sequence
+    if seq and rng.random() < 0.6:
+        try:
+            ll.fix_parameters({nm: None for nm in names0})
+            xs = np.abs(rng.uniform(0.5, 1.5, ll.n_parameters()))
+            with np.errstate(all='ignore'):
+                _, g2 = ll.evaluateS1(xs)
+            ctx.spec('C17.LogLikelihood.gradient_length_after_release', len(g2) == ll.n_parameters() == len(names0),
+                     dict(inp, sequence=seq + ['evaluateS1', 'release all', 'evaluateS1']), {'len': len(g2)})
+        except Exception as e:  # noqa
+            ctx.spec('C17.LogLikelihood.gradient_length_after_release', False,
+                     dict(inp, sequence=seq + ['evaluateS1', 'release all', 'evaluateS1']), {'raised': repr(e)[:200]})
+    n = ll.n_parameters()
     if n > 0:
         prior = pints.ComposedLogPrior(*[pints.GaussianLogPrior(1, 1) for _ in range(n)]) if n > 1 \
             else pints.GaussianLogPrior(1, 1)
